@@ -25,6 +25,13 @@ class HarnessError(Exception):
     pass
 
 
+class ContainedStop(Exception):
+    """The batch was cut short by a hang/crash of the code under test; the verdict is final."""
+
+    def __init__(self, code):
+        self.code = code
+
+
 def log(msg):
     print(msg, flush=True)
 
@@ -133,6 +140,72 @@ def settle(prop, found, replay_fn):
 
 
 # ---------------------------------------------------------------------------------------------
+# containment: code under test that hangs or kills the simulator process
+
+
+def by_index_file(prop, engine, cls, detail, params, profile=None):
+    ensure_dirs()
+    rec = {"property": prop, "violation": {"class": cls, "detail": detail}, "record": {"engine": engine, "by_index": params}}
+    if profile:
+        rec["profile"] = profile
+    path = os.path.join(REPLAYS, "%s-%s-%d-%d.json" % (prop, cls.split("/")[1], params["seed"], params["index"]))
+    with open(path, "w") as f:
+        json.dump(rec, f, indent=1)
+    return path
+
+
+def run_contained(cmd, env, out_path, prop, engine, family, params, profile=None, replay_bin=None):
+    """Runs a simulator batch.  Returns (summary or None, found).  A hang (the simulator's watchdog
+    exits with status 3) or an abort (signal, double panic, stack overflow) of the code under test
+    becomes a replayable by-index violation instead of a harness error."""
+    rc, so, se = run(cmd, env=env, timeout=12 * 3600)
+    if rc == 0 and os.path.exists(out_path):
+        return json.load(open(out_path)), []
+    m = re.search(r"SIM-HANG index=(\d+)", se)
+    if rc == 3 and m:
+        idx = int(m.group(1))
+        cls = "%s/hang//" % family
+        path = by_index_file(prop, engine, cls, "run %d did not finish: the code under test hangs (watchdog)" % idx, dict(params, index=idx), profile)
+        return None, [{"class": cls, "detail": "run index %d hangs" % idx, "replay": path}]
+    if rc < 0 or rc in (101, 134, 139):
+        # forensic re-run: every worker records the index it is about to execute
+        prog = os.path.join(WORK, "progress-%s" % prop)
+        env2 = dict(env)
+        env2["VERIF_PROGRESS_FILE"] = prog
+        run(cmd, env=env2, timeout=12 * 3600)
+        cands = set()
+        for f in os.listdir(WORK):
+            if f.startswith("progress-%s." % prop):
+                try:
+                    cands.add(int(open(os.path.join(WORK, f)).read().split()[0]))
+                except (ValueError, IndexError):
+                    pass
+                os.remove(os.path.join(WORK, f))
+        cls = "%s/crash//" % family
+        for idx in sorted(cands):
+            path = by_index_file(prop, engine, cls, "run %d kills the process (abort / stack overflow / double panic in the code under test)" % idx, dict(params, index=idx), profile)
+            rc2, _, _ = run([replay_bin or cmd[0], "replay", path], timeout=600)
+            if rc2 < 0 or rc2 in (101, 134, 139):
+                return None, [{"class": cls, "detail": "run index %d kills the process (status %s)" % (idx, rc2), "replay": path}]
+            os.remove(path)
+        sys.stderr.write(so[-2000:] + se[-4000:])
+        raise HarnessError("simulator died with status %s and no single run reproduces it" % rc)
+    sys.stderr.write(so[-2000:] + se[-4000:])
+    raise HarnessError("simulator exited with status %s" % rc)
+
+
+def normalise_replay(rc, text, path):
+    """A replay that dies is a reproduced crash; map it to the class recorded in the file."""
+    if rc < 0 or rc > 2:
+        try:
+            cls = (json.load(open(path)).get("violation") or {}).get("class", "crash")
+        except (OSError, ValueError):
+            cls = "crash"
+        return 1, text + "\nREPLAY-VIOLATION class=%s detail=process terminated abnormally (status %s)\n" % (cls, rc)
+    return rc, text
+
+
+# ---------------------------------------------------------------------------------------------
 # iosim (C08, C09)
 
 IOSIM_TIERS = {
@@ -147,7 +220,7 @@ def iosim_replay(path):
     profile = {"rel": "sim-rel", "dbg": "sim-dbg"}.get(rec.get("profile", "rel"), "sim-rel")
     binary, _ = cargo_build("iosim", profile)
     rc, out, err = run([binary, "replay", path], timeout=600)
-    return rc, out + err
+    return normalise_replay(rc, out + err, path)
 
 
 def merge_counts(a, b):
@@ -163,6 +236,7 @@ def check_iosim(prop, tier, seed):
     runs, extra = IOSIM_TIERS[prop][tier]
     sub = "reader" if prop == "C08" else "writer"
     summaries = {}
+    contained = []
     build_s = 0.0
     for tag, profile in (("rel", "sim-rel"), ("dbg", "sim-dbg")):
         binary, bs = cargo_build("iosim", profile)
@@ -174,17 +248,20 @@ def check_iosim(prop, tier, seed):
         cmd += ["--long", str(extra)] if prop == "C08" else ["--sweep", str(extra)]
         env = dict(ENV)
         env["VERIF_WORKERS"] = str(workers())
-        rc, so, se = run(cmd, env=env, timeout=6 * 3600)
-        if rc != 0 or not os.path.exists(out):
-            sys.stderr.write(so[-2000:] + se[-4000:])
-            raise HarnessError("iosim %s (%s) exited with status %s" % (sub, profile, rc))
-        summaries[tag] = json.load(open(out))
+        summ, extra_found = run_contained(cmd, env, out, prop, "iosim-" + sub, sub, {"seed": seed, "runs": runs, "extra": extra, "index": 0}, profile=tag)
+        contained.extend(extra_found)
+        if summ is not None:
+            summaries[tag] = summ
 
-    found = []
+    found = list(contained)
     for tag, s in summaries.items():
         for v in s["violations"]:
             found.append({"class": v["class"], "detail": v["detail"], "replay": v["replay"]})
     real = settle(prop, found, iosim_replay)
+    if len(summaries) < 2:
+        # a profile's batch was cut short by a hang/crash of the code under test: no coverage summary
+        write_evidence(prop, tier, seed, "fault_enumeration", {"evaluations": 1, "distinct_nontrivial": 0, "rule": "batch aborted by a hang or crash of the code under test; see violations", "samples": [f["replay"] for f in found]}, [], time.time() - t0, real)
+        return 1 if real else 0
 
     rel, dbg = summaries["rel"], summaries["dbg"]
     execs = rel["executions"] + dbg["executions"]
@@ -302,11 +379,13 @@ def treap_ctl(seed, runs, tag):
         os.remove(out)
     env = dict(ENV)
     env["VERIF_WORKERS"] = str(workers())
-    rc, so, se = run([binary, "ctl", "--runs", str(runs), "--seed", str(seed), "--out", out, "--replay-dir", REPLAYS], env=env, timeout=6 * 3600)
-    if rc != 0 or not os.path.exists(out):
-        sys.stderr.write(so[-2000:] + se[-4000:])
-        raise HarnessError("treapsim ctl exited with status %s" % rc)
-    return json.load(open(out)), bs
+    prop = tag.split("-")[0]
+    summ, extra = run_contained([binary, "ctl", "--runs", str(runs), "--seed", str(seed), "--out", out, "--replay-dir", REPLAYS], env, out, prop, "treapsim", "treap", {"seed": seed, "index": 0})
+    if summ is None:
+        real = settle(prop, extra, treap_replay)
+        write_evidence(prop, "quick", seed, "exploration", {"evaluations": 1, "distinct_nontrivial": 0, "rule": "batch aborted by a hang or crash of the code under test; see violations", "samples": [f["replay"] for f in extra]}, [], 0.0, real)
+        raise ContainedStop(1 if real else 0)
+    return summ, bs
 
 
 def treap_replay(path):
@@ -315,11 +394,7 @@ def treap_replay(path):
     profile = "sim-rel" if engine == "treapsim-real" else "sim-dbg"
     binary, _ = cargo_build("treapsim", profile)
     rc, out, err = run([binary, "replay", path], timeout=3600)
-    if rc < 0 or rc > 2:
-        # the process died (stack exhaustion in the recursive split/merge of a degenerate tree)
-        cls = (rec.get("violation") or {}).get("class", "treap/crash//")
-        return 1, out + err + "\nREPLAY-VIOLATION class=%s detail=process terminated abnormally (status %s)\n" % (cls, rc)
-    return rc, out + err
+    return normalise_replay(rc, out + err, path)
 
 
 def ctl_coverage(c):
@@ -915,6 +990,8 @@ def main(argv):
         seed = seed_from_env()
         log("check %s tier=%s VERIF_SEED=%d" % (prop, tier, seed))
         return CHECKS[prop](tier, seed)
+    except ContainedStop as e:
+        return e.code
     except HarnessError as e:
         log("HARNESS-ERROR: %s" % e)
         return 2
